@@ -355,29 +355,71 @@ func c03LineRounding(c *core.Ctx) {
 
 // roundsViaLocals accepts the `x := l.F.RescaleDown(e); l.F = &x` idiom for pointer fields.
 func roundsViaLocals(fd *core.FuncDecl) bool {
+	return roundsVia(subject, fd, 0)
+}
+
+// roundsVia: every value given to an amount-typed location in the function is a
+// Rescale* result, the address of (or a copy of) a local so computed, nil, or
+// the result of a module helper that itself only returns such values.
+func roundsVia(p *core.Program, fd *core.FuncDecl, depth int) bool {
 	info := fd.Pkg.TypesInfo
 	ok := true
 	n := 0
-	ast.Inspect(fd.Decl.Body, func(m ast.Node) bool {
-		as, isA := m.(*ast.AssignStmt)
-		if !isA || len(as.Lhs) != 1 || len(as.Rhs) != 1 {
+	var allowed func(r ast.Expr) bool
+	allowed = func(r ast.Expr) bool {
+		r = ast.Unparen(r)
+		if core.IsNil(info, r) {
 			return true
 		}
-		lt := info.TypeOf(as.Lhs[0])
-		if lt == nil || !strings.Contains(core.TypeString(lt), "num.Amount") {
-			return true
-		}
-		r := ast.Unparen(as.Rhs[0])
-		if call, isC := r.(*ast.CallExpr); isC {
-			if cf := core.Callee(info, call); cf != nil && strings.HasPrefix(cf.Name(), "Rescale") {
+		switch x := r.(type) {
+		case *ast.CallExpr:
+			cf := core.Callee(info, x)
+			if cf != nil && strings.HasPrefix(cf.Name(), "Rescale") {
 				n++
 				return true
 			}
+			if cf != nil && core.InModule(cf.Pkg()) && depth < 3 && p != nil {
+				if hfd := p.DeclOf(cf); hfd != nil && roundsVia(p, hfd, depth+1) {
+					n++
+					return true
+				}
+			}
+		case *ast.UnaryExpr:
+			if x.Op == token.AND {
+				_, isID := ast.Unparen(x.X).(*ast.Ident)
+				return isID
+			}
+		case *ast.Ident:
+			if v, isV := info.Uses[x].(*types.Var); isV && !v.IsField() {
+				return true
+			}
 		}
-		if u, isU := r.(*ast.UnaryExpr); isU && u.Op == token.AND {
-			return true
+		return false
+	}
+	ast.Inspect(fd.Decl.Body, func(m ast.Node) bool {
+		switch st := m.(type) {
+		case *ast.AssignStmt:
+			if len(st.Lhs) != len(st.Rhs) {
+				return true
+			}
+			for i := range st.Lhs {
+				lt := info.TypeOf(st.Lhs[i])
+				if lt == nil || !strings.Contains(core.TypeString(lt), "num.Amount") {
+					continue
+				}
+				if !allowed(st.Rhs[i]) {
+					ok = false
+				}
+			}
+		case *ast.ReturnStmt:
+			if depth > 0 {
+				for _, r := range st.Results {
+					if t := info.TypeOf(r); t != nil && strings.Contains(core.TypeString(t), "num.Amount") && !allowed(r) {
+						ok = false
+					}
+				}
+			}
 		}
-		ok = false
 		return true
 	})
 	return ok && n > 0
